@@ -6,16 +6,18 @@ import numpy as np
 import common as C
 
 PID = "C11"
-DRIVER = [("C11", "TfPwaV.Gen.KinF", "KinF.handle"), ("C11d", "TfPwaV.Gen.DalitzF", "DalitzF.handle"), ("C11a", "TfPwaV.Gen.AngleF", "AngleF.handle")]
-LEAN_TARGETS = ["TfPwaV.Props.C11", "TfPwaV.Props.C11b", "TfPwaV.Props.C11c", "TfPwaV.Gen.KinF", "TfPwaV.Gen.DalitzF", "TfPwaV.Gen.AngleF"]
-PROP_MODULES = ["TfPwaV.Props.C11", "TfPwaV.Props.C11b", "TfPwaV.Props.C11c"]
-ALL_MODULES = ["TfPwaV.Proofs.Kin", "TfPwaV.Proofs.Dalitz", "TfPwaV.Props.C11", "TfPwaV.Props.C11b", "TfPwaV.Proofs.ScalarR", "TfPwaV.Proofs.Angle", "TfPwaV.Props.C11c"]
+DRIVER = [("C11", "TfPwaV.Gen.KinF", "KinF.handle"), ("C11d", "TfPwaV.Gen.DalitzF", "DalitzF.handle"), ("C11a", "TfPwaV.Gen.AngleF", "AngleF.handle"), ("C11t", "TfPwaV.Gen.CascadeF", "CascadeF.handle")]
+LEAN_TARGETS = ["TfPwaV.Props.C11", "TfPwaV.Props.C11b", "TfPwaV.Props.C11c", "TfPwaV.Props.C11d", "TfPwaV.Gen.KinF", "TfPwaV.Gen.DalitzF", "TfPwaV.Gen.AngleF", "TfPwaV.Gen.CascadeF"]
+PROP_MODULES = ["TfPwaV.Props.C11", "TfPwaV.Props.C11b", "TfPwaV.Props.C11c", "TfPwaV.Props.C11d"]
+ALL_MODULES = ["TfPwaV.Proofs.Kin", "TfPwaV.Proofs.Dalitz", "TfPwaV.Props.C11", "TfPwaV.Props.C11b", "TfPwaV.Proofs.ScalarR", "TfPwaV.Proofs.Angle", "TfPwaV.Props.C11c", "TfPwaV.Proofs.CascadeAngle", "TfPwaV.Proofs.Cascade", "TfPwaV.Proofs.CascadeTree", "TfPwaV.Props.C11d"]
 ASSUMPTIONS = [
     "IEEE double evaluation of the same formula text (Lean Float vs TensorFlow) agrees to 1e-11 relative to the scale gamma^2*|p|; cases with gamma > 1e4 are counted as ill-conditioned and skipped",
     "theorems hold over the reals in the regular branch eps < |v|^2 < 1; the guard branch (|v|^2 <= 1e-14) has its own statements",
     "Dalitz theorem (dalitz_reproduces) holds in the interior of the Dalitz region as seen by the code's own square roots (lambda > 0, x14*G >= 0)",
-    "single-vertex helicity-angle extraction is proved (angle_step_roundtrip: in an orthonormal right-handed frame, angle_zx_z_getx of a daughter built at (theta, phi) returns (phi, theta) and the constructor's new x-axis; guard P sin(theta) >= 1e-14); the boosts between the vertices of a cascade and the alpha range shift of the second daughter are not in that theorem",
-    "helicity-angle cascade round trip (build_data -> cal_angle -> find_variable) is NOT proved as a whole: it is validated on the implementation for every topology with 3..5 final particles (all 3+15+105 chains of DecayChain.from_particles) on seeded masses/angles, tolerance 1e-6 (the chain takes acos/cos and sqrt|m^2| of rounded quantities: observed error <= 3e-8)",
+    "single-vertex helicity-angle extraction is proved (angle_step_roundtrip: in an orthonormal right-handed frame, angle_zx_z_getx of a daughter built at (theta, phi) returns (phi, theta) and the constructor's new x-axis; guard P sin(theta) >= 1e-14)",
+    "helicity-angle CASCADE round trip is proved for every decay tree (Props/C11d.lean: cascade_boost_undo, cascade_angles, cascade_roundtrip over the model templates/Cascade.lean.in = create_rotate_p_decay + infer_momentum/add_mass/cal_chain_boost/cal_helicity_angle/find_variable) under hypotheses that mirror the code's guards: every decay above threshold (m > m1+m2, final masses >= 0), every decaying daughter's velocity in the regular branch of boost (P^2/(m^2+P^2) > 1e-14), -1 < cos(theta) < 1, -pi < phi < pi, and the cross_unit guards s >= 1e-14, s*P*sin(theta) >= 1e-14 with s = length of the un-normalised z-axis handed down (1 at the top, the mother's break-up momentum below); phi = pi is excluded and has its own statement (alpha_at_pi: the code returns -pi)",
+    "the cascade model is tied to the code by correspondence of its Float instance with HelicityAngle.build_data (final momenta, tol 1e-10 relative to the top mass) and cal_angle (all masses, alpha/beta of BOTH daughters of every decay, tol 1e-9 scaled by the smallest sin^2(theta) of the chain) on all 3- and 4-body and seeded 5-body topologies; model simplifications: dictionaries keyed by particles become trees of the same shape, infer_momentum's flat reduce_sum is a nested sum (equal over the reals, rounding-different in floats), floormod is x - y*floor(x/y); not in the model: DecayChain bookkeeping (standard_topology / topology_map, depth_first order), batching, the SU2 r_matrix/b_matrix and aligned angles computed alongside",
+    "the cascade round trip is additionally validated end-to-end on the implementation (search_cascade: every topology with 3..5 final particles on seeded masses/angles, tolerance 1e-6)",
 ]
 
 
@@ -286,7 +288,7 @@ def search_dalitz(ctx, res):
 
 
 # ---------------------------------------------------------------------------------------------
-# helicity-angle cascade round trip (validated on the implementation; not proved)
+# helicity-angle cascade round trip, end to end on the implementation (the theorem is Props/C11d.lean cascade_roundtrip)
 # ---------------------------------------------------------------------------------------------
 
 def _roundtrip_chain(ch, finals, rnd, N):
@@ -321,8 +323,9 @@ def _roundtrip_chain(ch, finals, rnd, N):
     for j, (a, b) in enumerate(zip(cos, cos2)):
         errs["cos(theta) of %s" % decs[j]] = float(np.max(np.abs(a - b.numpy())))
     for j, (a, b) in enumerate(zip(phi, phi2)):
+        # inputs are in (-3.13, 3.13), away from the wrap-around point: the extracted phi must be the input itself
+        # (theorem cascade_roundtrip), not merely the input mod 2 pi
         d = np.abs(a - b.numpy())
-        d = np.minimum(d, 2 * np.pi - d)
         errs["phi of %s" % decs[j]] = float(d.max())
     # momenta: on shell and summing to the parent at rest
     tot = sum(p4[f].numpy() for f in finals)
@@ -412,10 +415,162 @@ def correspond_angle(ctx, res):
         res.broke("correspondence AngleF vs EulerAngle.angle_zx_z_getx / Vector3.cross_unit", {"n": nbad, "first": first})
 
 
+# ---------------------------------------------------------------------------------------------
+# cascade model (templates/Cascade.lean.in) vs HelicityAngle.build_data / cal_angle
+# ---------------------------------------------------------------------------------------------
+
+def _cascade_inputs(ch, finals, rnd, N, edge=False):
+    """seeded masses (every decay above threshold) and angles for one chain; `edge`: angles close to the poles / ±π"""
+    mass = {}
+    for f in finals:
+        mass[f] = np.full(N, rnd.choice([0.0, 0.14, 0.5, 0.94]))
+
+    def m_of(p):
+        if p in mass:
+            return mass[p]
+        for d in ch:
+            if d.core == p:
+                lo = sum(m_of(o) for o in d.outs)
+                mass[p] = lo + np.array([rnd.choice([0.02, 0.3, 1.0]) * rnd.uniform(0.5, 1.0) for _ in range(N)])
+                return mass[p]
+        raise KeyError(p)
+    m_of(ch.top)
+    decs = list(ch)
+    if edge:
+        cos = [np.array([rnd.choice([-0.9999, 0.9999, 0.0, rnd.uniform(-0.99, 0.99)]) for _ in range(N)]) for _ in decs]
+        phi = [np.array([rnd.choice([-3.1415, 3.1415, 0.0, 1e-9, -1e-9, rnd.uniform(-3.1, 3.1)]) for _ in range(N)]) for _ in decs]
+    else:
+        cos = [np.array([rnd.uniform(-0.995, 0.995) for _ in range(N)]) for _ in decs]
+        phi = [np.array([rnd.uniform(-3.13, 3.13) for _ in range(N)]) for _ in decs]
+    return mass, decs, cos, phi
+
+
+def _tree_tokens(ch, decs, mass, cos, phi, k):
+    """prefix notation of the decay tree of event k for the Lean model; also the preorder list of (decay | final)"""
+    by_core = {d.core: (j, d) for j, d in enumerate(decs)}
+    toks, order = [], []
+
+    def rec(p):
+        if p in by_core:
+            j, d = by_core[p]
+            toks.extend([1.0, float(mass[p][k]), float(cos[j][k]), float(phi[j][k])])
+            order.append(("dec", j, d))
+            rec(d.outs[0])
+            rec(d.outs[1])
+        else:
+            toks.extend([0.0, float(mass[p][k])])
+            order.append(("fin", p))
+    rec(ch.top)
+    return toks, order
+
+
+def correspond_cascade(ctx, res):
+    """CascadeF (Float instance of the model the cascade theorems are about) vs the implementation:
+    final momenta of build_data, and per decay (alpha, beta) of BOTH daughters + all masses from cal_angle."""
+    import random
+    import tensorflow as tf
+    from tf_pwa.data_trans.helicity_angle import HelicityAngle
+    from tf_pwa.particle import BaseParticle, DecayChain
+    rnd = random.Random(ctx.seed * 104729 + 1104)
+    N = 6 if ctx.quick else 40
+    picks = []
+    for n in (3, 4, 5):
+        top = BaseParticle("A")
+        finals = [BaseParticle(c) for c in "BCDEF"[:n]]
+        chains = DecayChain.from_particles(top, finals)
+        idx = list(range(len(chains)))
+        if n == 5 and ctx.quick:
+            idx = sorted(rnd.sample(idx, 12))
+        picks += [(n, ci, chains[ci], finals) for ci in idx]
+    lines, meta = [], []
+    for n, ci, ch, finals in picks:
+        for edge in (False, True):
+            mass, decs, cos, phi = _cascade_inputs(ch, finals, rnd, N, edge)
+            ha = HelicityAngle(ch)
+            ms = {k: tf.constant(v) for k, v in mass.items()}
+            p4 = ha.build_data(ms, [tf.constant(c) for c in cos], [tf.constant(c) for c in phi])
+            dat = ha.cal_angle(p4)
+            st = ch.standard_topology()
+            tmap = st.topology_map(ch)
+            inv = {v: k for k, v in tmap.items()}
+            for k in range(N):
+                toks, order = _tree_tokens(ch, decs, mass, cos, phi, k)
+                arg = " ".join(C.f2h(x) for x in toks)
+                impl_p, impl_a = [], []
+                sin_min = 1.0
+                for o in order:
+                    if o[0] == "fin":
+                        impl_p += [float(x) for x in p4[o[1]].numpy()[k]]
+                        impl_a.append(float(dat["particle"][inv[o[1]]]["m"].numpy()[k]))
+                    else:
+                        d = o[2]
+                        sd = inv[d]
+                        impl_a.append(float(dat["particle"][sd.core]["m"].numpy()[k]))
+                        for out in sd.outs:
+                            ang = dat["decay"][st][sd][out]["ang"]
+                            impl_a += [float(ang["alpha"].numpy()[k]), float(ang["beta"].numpy()[k])]
+                        sin_min = min(sin_min, math.sqrt(max(1 - cos[o[1]][k] ** 2, 0.0)))
+                lines += ["C11t build " + arg, "C11t angle " + arg]
+                meta.append({"n": n, "chain_index": ci, "chain": str(ch), "event": k, "edge": edge, "impl_p": impl_p, "impl_a": impl_a,
+                             "order": order, "m0": float(mass[ch.top][k]), "sin_min": sin_min, "tokens": toks})
+    out = ctx.model.query(lines)
+    nbad, worst_p, worst_a, first, nskip = 0, 0.0, 0.0, None, 0
+    for i, mt in enumerate(meta):
+        lp, la = out[2 * i], out[2 * i + 1]
+        if lp == "bad-op" or la == "bad-op":
+            res.broke("model driver bad-op (Cascade)", lines[2 * i])
+            return
+        mp = np.array([C.h2f(x) for x in lp.split()])
+        ma = np.array([C.h2f(x) for x in la.split()])
+        ip, ia = np.array(mt["impl_p"]), np.array(mt["impl_a"])
+        if mp.shape != ip.shape or ma.shape != ia.shape:
+            res.broke("correspondence CascadeF: shape of the answer", {"chain": mt["chain"], "model": [len(mp), len(ma)], "impl": [len(ip), len(ia)]})
+            return
+        ep = float(np.max(np.abs(mp - ip))) / mt["m0"]
+        worst_p = max(worst_p, ep)
+        # angles: compare mod 2π; masses squared (sqrt|m²| of a massless particle amplifies rounding);
+        # azimuths are ill-conditioned near the poles of any vertex above: scale by the smallest sin θ of the chain
+        ea, pos = 0.0, 0
+        for o in mt["order"]:
+            if o[0] == "fin":
+                ea = max(ea, abs(ma[pos] ** 2 - ia[pos] ** 2) / mt["m0"] ** 2)
+                pos += 1
+            else:
+                ea = max(ea, abs(ma[pos] ** 2 - ia[pos] ** 2) / mt["m0"] ** 2)
+                for q in (1, 3):
+                    da = abs(ma[pos + q] - ia[pos + q])
+                    # the ranges are part of the contract ([-pi, pi) for outs[0], [-2pi, 0) for outs[1], theorem cascade_angles):
+                    # compare exactly, except within 1e-6 of the wrap-around point, where rounding may pick either end
+                    hi = math.pi if q == 1 else 0.0
+                    if min(abs(ia[pos + q] - hi), abs(ia[pos + q] - hi + 2 * math.pi)) < 1e-6:
+                        da = min(da % (2 * math.pi), 2 * math.pi - da % (2 * math.pi))
+                    ea = max(ea, da * mt["sin_min"] ** 2, abs(ma[pos + q + 1] - ia[pos + q + 1]) * mt["sin_min"] ** 2)
+                pos += 5
+        if mt["sin_min"] < 1e-3:
+            nskip += 1
+            continue
+        worst_a = max(worst_a, ea)
+        if not (ep < 1e-10 and ea < 1e-9):
+            nbad += 1
+            if first is None:
+                first = {"chain": mt["chain"], "n": mt["n"], "chain_index": mt["chain_index"], "tokens": mt["tokens"], "err_momenta": ep, "err_angles": ea,
+                         "impl_p": mt["impl_p"], "model_p": list(map(float, mp)), "impl_a": mt["impl_a"], "model_a": list(map(float, ma))}
+    res.coverage["cascade_model_events"] = len(meta)
+    res.coverage["cascade_model_chains"] = len(picks)
+    res.coverage["cascade_model_skipped_near_pole"] = nskip
+    res.coverage["cascade_model_worst_err_momenta"] = worst_p
+    res.coverage["cascade_model_worst_err_angles"] = worst_a
+    res.coverage["traces_validated_against_impl"] = res.coverage.get("traces_validated_against_impl", 0) + 2 * (len(meta) - nskip)
+    res.samples.append({"op": lines[0][:200], "model": out[0][:200]})
+    if nbad:
+        res.broke("correspondence CascadeF vs HelicityAngle.build_data / cal_angle", {"n": nbad, "first": first})
+
+
 def correspond(ctx, res):
     correspond_boost(ctx, res)
     correspond_dalitz(ctx, res)
     correspond_angle(ctx, res)
+    correspond_cascade(ctx, res)
 
 
 def search(ctx, res):
@@ -487,7 +642,7 @@ def json_dumps(x):
 
 
 MANIFEST = {
-    "text": "Lean theorems over the reals for ALL four-vectors and all velocities in the regular branch eps<|v|^2<1: boosts preserve Minkowski products and masses (boost_minkowski, boost_mass), boost by v then -v is the identity (boost_inverse), rest_vector then boost back is the identity, boost matrix = vector boost (all inputs), rotations preserve products; the eps-guard branch is stated separately; momenta built from Dalitz variables are on shell, sum to the parent at rest and reproduce (m12, m23) everywhere inside the Dalitz region (dalitz_reproduces, certificate-checked). The same definition text is instantiated at Float and compared with tf_pwa.angle.LorentzVector.",
-    "note": "Model = templates/Kin.lean.in instantiated at R (proofs) and Float (execution); tie = differential run against LorentzVector.boost/rest_vector/boost_matrix/Dot/M on seeded structured vectors (tol 1e-11 relative to gamma^2|p|, gamma>1e4 skipped). + Dalitz.generate_p vs templates/Dalitz.lean.in (a line-by-line transcription of _generate_fun0). Float rounding itself is not verified. Proved for a single vertex (angle_step_roundtrip, Props/C11c.lean: extraction of (phi, theta) and of the new x-axis in any orthonormal right-handed frame; model templates/Angle.lean.in compared with EulerAngle.angle_zx_z_getx / Vector3.cross_unit). NOT proved as a whole, validated only: the helicity-angle cascade round trip HelicityAngle.build_data -> cal_angle -> find_variable, run on the implementation for every chain topology with 3..5 final particles (all in the thorough tier, all 3- and 4-body plus a seeded 30% of the 105 five-body chains in the quick tier).",
+    "text": "Lean theorems over the reals for ALL four-vectors and all velocities in the regular branch eps<|v|^2<1: boosts preserve Minkowski products and masses (boost_minkowski, boost_mass), boost by v then -v is the identity (boost_inverse), rest_vector then boost back is the identity, boost matrix = vector boost (all inputs), rotations preserve products; the eps-guard branch is stated separately; momenta built from Dalitz variables are on shell, sum to the parent at rest and reproduce (m12, m23) everywhere inside the Dalitz region (dalitz_reproduces, certificate-checked); for EVERY decay tree (sequential or branching, any number of final particles) building the final momenta from masses and helicity angles and extracting masses and angles again returns the inputs (cascade_roundtrip, with cascade_boost_undo and cascade_angles), for cos(theta) in (-1,1), phi in (-pi,pi), decays above threshold and outside the code's 1e-14 guards. The same definition text is instantiated at Float and compared with tf_pwa.angle.LorentzVector.",
+    "note": "Model = templates/Kin.lean.in instantiated at R (proofs) and Float (execution); tie = differential run against LorentzVector.boost/rest_vector/boost_matrix/Dot/M on seeded structured vectors (tol 1e-11 relative to gamma^2|p|, gamma>1e4 skipped). + Dalitz.generate_p vs templates/Dalitz.lean.in (a line-by-line transcription of _generate_fun0). Float rounding itself is not verified. Helicity angles: single vertex (angle_step_roundtrip, Props/C11c.lean; model templates/Angle.lean.in compared with EulerAngle.angle_zx_z_getx / Vector3.cross_unit) and the whole CASCADE (Props/C11d.lean over templates/Cascade.lean.in, by structural induction over an arbitrary binary decay tree): cascade_boost_undo (masses and the nested rest_vector boosts of cal_chain_boost return exactly the rest-frame momenta create_rotate_p_decay started from), daughter_frames (the axes handed to both daughters, incl. [x,-y,-z], are orthonormal right-handed frames), cascade_angles (cal_helicity_angle returns (phi, theta) for outs[0] and (phi-pi, pi-theta) for outs[1], range shift with bias -pi/-2pi included), cascade_roundtrip (find_variable(cal_angle(build_data(t))) = t), hypotheses = the code's own guards + thresholds + open angle ranges; phi = pi stated separately (alpha_at_pi). The Float instance of the cascade model is compared with HelicityAngle.build_data / cal_angle (momenta, masses, both daughters' angles) on all 3-/4-body and seeded 5-body topologies. Validated only (not in the Lean model): DecayChain bookkeeping (standard_topology/topology_map, decay ordering) and float rounding; the end-to-end round trip is still run on the implementation for every chain topology with 3..5 final particles (all in the thorough tier, all 3- and 4-body plus a seeded 30% of the 105 five-body chains in the quick tier).",
     "technique": "Lean 4 proof over the reals (linear_combination certificates) of one template instantiated at Float for differential correspondence with the implementation",
 }
